@@ -121,14 +121,14 @@ impl LyNative for AssertEq {
       return Call::Ok(VALUE_NIL);
     }
 
+    // the first text has to survive the allocations made for the second
     let arg0 = to_str(hooks, args[0]);
+    hooks.push_root(arg0);
     let arg1 = to_str(hooks, args[1]);
+    let message = format!("Expected {arg0:?} to equal {arg1:?}.");
+    hooks.pop_roots(1);
 
-    create_error!(
-      self.error,
-      hooks,
-      format!("Expected {arg0:?} to equal {arg1:?}.")
-    )
+    create_error!(self.error, hooks, message)
   }
 }
 
@@ -166,14 +166,14 @@ impl LyNative for AssertNe {
       return Call::Ok(VALUE_NIL);
     }
 
+    // the first text has to survive the allocations made for the second
     let arg0 = to_str(hooks, args[0]);
+    hooks.push_root(arg0);
     let arg1 = to_str(hooks, args[1]);
+    let message = format!("Expected {arg0} not to equal {arg1}.");
+    hooks.pop_roots(1);
 
-    create_error!(
-      self.error,
-      hooks,
-      format!("Expected {arg0} not to equal {arg1}.")
-    )
+    create_error!(self.error, hooks, message)
   }
 }
 
